@@ -191,4 +191,50 @@ theorem ctrRun_other_untouched (P C : Nat) (dump : Nat → Nat → List Nat) (co
     obtain ⟨p, c, _, _, e⟩ := (mem_mergeReads P C _).mp h
     cases e
 
+/-! ## library histories: `count(); merge(delete)` with any `delete` flag -/
+
+theorem counts_notin_mergeReads (P C : Nat) : Path.counts ∉ mergeReads P C := by
+  intro h
+  obtain ⟨p, c, _, _, e⟩ := (mem_mergeReads P C _).mp h
+  cases e
+
+/-- the table a merge writes, whatever the disk and whatever `delete` is -/
+theorem mergePhase_counts (P C : Nat) (d : Bool) (combine : List (Option (List Nat)) → List Nat) (fs : FS) :
+    (mergePhase P C d combine fs).read .counts = some (combine ((mergeReads P C).map fs.read)) := by
+  unfold mergePhase
+  cases d
+  · simp only [Bool.false_eq_true, if_false]
+    rw [write_read]
+  · simp only [if_true]
+    rw [foldl_delete_notin _ _ _ (counts_notin_mergeReads P C), write_read]
+
+theorem ctrRunD_true (P C : Nat) (dump : Nat → Nat → List Nat) (combine : List (Option (List Nat)) → List Nat) (fs : FS) :
+    ctrRunD P C true dump combine fs = ctrRun P C dump combine fs := rfl
+
+theorem ctrRunD_counts (P C : Nat) (d : Bool) (dump : Nat → Nat → List Nat) (combine : List (Option (List Nat)) → List Nat) (fs : FS) :
+    (ctrRunD P C d dump combine fs).read .counts =
+      some (combine ((List.range P).flatMap fun p => (List.range C).map fun c => some (dump p c))) := by
+  unfold ctrRunD
+  rw [mergePhase_counts, merge_inputs]
+
+theorem ctrRunD_keep_temp (P C : Nat) (dump : Nat → Nat → List Nat) (combine : List (Option (List Nat)) → List Nat) (fs : FS)
+    (p c : Nat) (hp : p < P) (hc : c < C) : (ctrRunD P C false dump combine fs).read (.temp p c) = some (dump p c) := by
+  unfold ctrRunD mergePhase
+  simp only [Bool.false_eq_true, if_false]
+  rw [write_read_other _ _ _ _ (by intro e; cases e), countPhase_read_temp P C dump fs p c hp hc]
+
+theorem remerge_after_keep (P C : Nat) (d : Bool) (dump : Nat → Nat → List Nat)
+    (combine combine' : List (Option (List Nat)) → List Nat) (fs : FS) :
+    (mergePhase P C d combine' (ctrRunD P C false dump combine fs)).read .counts
+      = (ctrRunD P C d dump combine' fs).read .counts := by
+  rw [mergePhase_counts]
+  unfold ctrRunD
+  rw [mergePhase_counts]
+  congr 2
+  apply List.map_congr_left
+  intro q hq
+  obtain ⟨p, c, hp, hc, rfl⟩ := (mem_mergeReads P C q).mp hq
+  rw [countPhase_read_temp P C dump fs p c hp hc]
+  exact ctrRunD_keep_temp P C dump combine fs p c hp hc
+
 end KT.Cl
